@@ -278,7 +278,9 @@ Reopen(rc) ==
     /\ mode = "closed" /\ exists /\ rc = "NC_NOERR"
     /\ mode' = "data"
     /\ vars' = AsSeq([i \in 1..Len(vars) |-> [vars[i] EXCEPT !.isnew = FALSE, !.nofill = FALSE]])
-    /\ UNCHANGED <<dims, gatts, numrecs, fresh, fillmode, fmt, saved, exists>>
+    \* the dataset fill mode is a property of the session, not of the file: every open starts in the documented default NC_NOFILL
+    /\ fillmode' = "NOFILL"
+    /\ UNCHANGED <<dims, gatts, numrecs, fresh, fmt, saved, exists>>
     /\ hist' = H([c |-> "open", rc |-> rc])
 
 (***************************************************************************)
